@@ -114,6 +114,11 @@ class DictDecoder:
         Returns:
             An instance of the class type representing the parsed content.
         """
+        if not isinstance(data, dict):
+            raise ParserError(
+                f"Failed to bind '{data}' to {clazz.__qualname__}, expected an object"
+            )
+
         if set(data.keys()) == self.context.class_type.derived_keys:
             return self.bind_derived_dataclass(data, clazz)
 
@@ -328,7 +333,11 @@ class DictDecoder:
             # xs:anyType element, check all meta classes
             return self.bind_best_dataclass(data, meta.element_types)
 
-        assert var.clazz is not None
+        if var.clazz is None:
+            raise ParserError(
+                f"Failed to bind object "
+                f"to {meta.clazz.__qualname__}.{var.name} field"
+            )
 
         subclasses = set(self.context.get_subclasses(var.clazz))
         if subclasses:
